@@ -64,6 +64,7 @@ type FuncContract struct {
 	Partial    bool    // paths reaching an instruction outside the subset are abandoned (listed as unchecked)
 	CallSites  []*CallSiteSpec
 	StopAfter  []string
+	StopBefore []string
 	ExactKeys  bool
 	NotClaimed [][3]string // obligation kind, fragment of its source line, reason
 }
@@ -120,7 +121,7 @@ var ckeywords = map[string]bool{
 	"ensures": true, "modifies": true, "nopanic": true, "nooverflow": true, "pure": true,
 	"trusted": true, "inline": true, "loop": true, "use": true, "split": true, "tier": true,
 	"induct": true, "ih": true, "allocbound": true, "abstract": true, "ghost": true, "uninterp": true, "where": true, "import": true, "globalinv": true, "slow": true,
-	"partial": true, "callsite": true, "ghostvar": true, "stopafter": true, "notclaimed": true, "exactkeys": true,
+	"partial": true, "callsite": true, "ghostvar": true, "stopafter": true, "stopbefore": true, "notclaimed": true, "exactkeys": true,
 }
 
 func parseParams(s string) ([]Param, error) {
@@ -462,6 +463,11 @@ func loadContracts(path string) (*PkgContracts, error) {
 					curF.ExactKeys = true
 				case "partial":
 					curF.Partial = true
+				case "stopbefore":
+					// stopbefore <callee>...: like stopafter, but the call itself is not executed (its call-site
+					// assertions are still checked)
+					curF.Partial = true
+					curF.StopBefore = append(curF.StopBefore, strings.Fields(strings.ReplaceAll(rest, ",", " "))...)
 				case "stopafter":
 					// stopafter <callee>...: symbolic execution of the function ends after the first call of one of
 					// these callees on each path (only the prefix up to and including that call is checked)
